@@ -161,14 +161,14 @@ func planKeys(c *CaseResult) []string {
 // RunC08 is the check for C08.
 func RunC08(e *core.Env) int {
 	rep := core.NewReport(e, "exploration",
-		"complete enumeration of style{return,arg} x recv{none,named} x reverse x src{ptr,val} x dst{ptr,val} x error x 0..3 additional args x named/unnamed params x local/imported source x local/imported destination (2048 shapes; "+
-			"thorough: all, quick: a seeded quarter). Legal shapes are packed 16 per file, illegal ones (:reverse without :style arg or with additional args, :recv on an imported type) one per file. Oracle: one function per method whose receiver, "+
+		"complete enumeration of style{return,arg} x recv{none,named} x reverse x src{ptr,val} x dst{ptr,val} x error x 0..3 additional args x named/unnamed params x local/imported source x local/imported destination (2048 shapes, all of them in both tiers). Legal shapes are packed 16 per file, illegal ones (:reverse without :style arg or with additional args, :recv on an imported type) one per file. Oracle: one function per method whose receiver, "+
 			"parameters and results (go/types of the output, compared by fully qualified type strings) are the documented ones, declared names preserved, error last; illegal shapes exit non-zero with a positioned diagnostic and no crash; "+
 			"legal shapes are also compiled and executed (copy direction, incl. :reverse). distinct non-trivial = shape label verified")
 	all := scen.AllShapes()
-	parts := 4
+	parts := 1 // the space is small enough to be enumerated completely in both tiers
+	nrand := 1
 	if e.Tier == "thorough" {
-		parts = 1
+		nrand = 12
 	}
 	var legal, illegal []scen.Shape
 	for i, sh := range all {
@@ -227,7 +227,7 @@ func RunC08(e *core.Env) int {
 			judgeC08Legal(rep, c, shapeOf[c.S.ID])
 		}
 		// execution: copy direction
-		eo := ExecBatch(e, rep, b, execmon.Job{NRandom: 1}, "s")
+		eo := ExecBatch(e, rep, b, execmon.Job{NRandom: nrand}, "s")
 		for id, infos := range eo.Infos {
 			for key, fi := range infos {
 				for _, r := range eo.Recs[id+"/"+key] {
